@@ -48,6 +48,8 @@ func Blame(cmd CommandRunner, path, commit string) (lines LineBlames, err error)
 
 	buf := bytes.NewReader(output)
 	scanner := bufio.NewScanner(buf)
+	// Lines of a rule file can be longer than the default 64KiB token limit of the scanner.
+	scanner.Buffer(nil, len(output)+1)
 	var line string
 	var cl LineBlame
 	for scanner.Scan() {
